@@ -44,6 +44,12 @@ import (
 // member, R's included: every table R keeps about that peer except its own overlay addresses (HostInfo.networks, the
 // firewall's routable networks) then says "this address is behind that peer", and all the crafted requests/responses
 // above whose RelayFrom/RelayTo name another cast member are requests for an address the sender routes but does not own.
+// Start states include an established pair one side of which asks the relay for the same relay AGAIN while the relay's
+// question to the other side is lost (the relay's slot for that side is back to Requested and keeps the index of the earlier
+// epoch), and an initiator with an established pair plus a half-open second pair.
+// Every relay control message that is delivered to any node is opened with the receiver's tunnel key (ground truth: who sent
+// it, what it says) and judged on its own: a slot that was Requested when the message arrived is Established afterwards only
+// if this very message is the owner's confirmation of that slot.
 // After EVERY event, on every node: relay-state transitions, hostMap.Relays ownership and every forwarded datagram are
 // judged (see audit). The forwarding oracle uses ground truth only: who really sent the frame (whose tunnel key made the
 // outer tag), which index it leaves on, and what the DESTINATION node itself recorded for that index.
@@ -74,6 +80,17 @@ type c39Stats struct {
 	// routed configurations: crafted control messages whose RelayFrom is an address the sender's certificate routes (unsafe
 	// network) but does not own; honest packets delivered from / to the routed cast member
 	reqCovered, reqCoveredRefused, reqCoveredEffect, respCovered, routedHonest, routedWorlds int64
+	// per-message judgement of control messages (decoded with the receiver's tunnel key): messages decoded; Requested ->
+	// Established steps judged against the very message that caused them; CreateRelayResponses that reached the relay from
+	// ONE side of a pair while the relay's slot for the OTHER side was Requested (awaiting that side's own answer): all / those
+	// where the waiting slot had been Established in an earlier epoch and still carries that epoch's index / those after which
+	// the waiting slot was still Requested
+	ctlDecoded, estByOwnerMsg, otherSideAnswered, otherSideAnsweredReReq, legKeptWaiting, pendingLegData int64
+	// PeerRequested -> Established steps on the relay, by who sent the message that caused them: the slot's peer (the target of
+	// the pair) / anybody else; crafted responses whose RelayTo names a pair the sender is no part of while the initiator's
+	// tunnel holds a PeerRequested slot for that pair
+	peerReqByTarget, peerReqByOther, respForOtherPair int64
+	d1Seconds float64 // wall time at which the current job completed depth 1 (evidence only, sizing aid)
 	stateSeen [4]int64
 	trans     map[string]int64
 }
@@ -107,6 +124,7 @@ type c39World struct {
 	everRSet    map[uint32]bool
 	everSlot    map[string]map[uint32]netip.Addr // per node: every relay index it ever listed -> the peer it listed it for
 	spoofed     []string // crafted requests with a RelayFromAddr the sender does not own that changed R's state
+	curEv       string   // the event being executed (for per-message violations)
 }
 
 var c39Names = []string{"i", "r", "t", "o"}
@@ -326,8 +344,147 @@ func (w *c39World) run() {
 		}
 		w.seq++
 		w.evDelivered, w.evDelivSeq = append(w.evDelivered, p), append(w.evDelivSeq, w.seq)
+		ctl := w.decodeCtl(dst, p) // before delivery: the tunnel it arrives on may not survive it
+		var pre map[c39SlotID]Relay
+		if ctl != nil {
+			pre = w.slotsOn(dst)
+		}
 		dst.deliver(p.From, p.Data)
+		if ctl != nil {
+			w.judgeCtl(dst, ctl, pre)
+		}
 		w.collect()
+	}
+}
+
+// c39Ctl: a relay control message as the RECEIVER's tunnel key opens it (ground truth: who really sent it and what it says;
+// nothing of the relay manager is involved in reading it).
+type c39Ctl struct {
+	sender   string // the peer whose tunnel key authenticates the message
+	resp     bool
+	init     uint32 // InitiatorRelayIndex
+	ridx     uint32 // ResponderRelayIndex
+	from, to netip.Addr
+}
+
+func (c *c39Ctl) String() string {
+	return fmt.Sprintf("%s from %s: relayFrom=%v relayTo=%v initiatorIndex=%#x responderIndex=%#x", map[bool]string{true: "CreateRelayResponse", false: "CreateRelayRequest"}[c.resp], c.sender, c.from, c.to, c.init, c.ridx)
+}
+
+func (w *c39World) decodeCtl(dst *vnode, p vpkt) *c39Ctl {
+	var h header.H
+	if len(p.Data) < header.Len+16 || h.Parse(p.Data) != nil || h.Type != header.Control {
+		return nil
+	}
+	hmap := dst.f.hostMap
+	hmap.RLock()
+	hi := hmap.Indexes[h.RemoteIndex]
+	hmap.RUnlock()
+	if hi == nil || hi.ConnectionState == nil || hi.ConnectionState.dKey == nil {
+		return nil
+	}
+	plain, err := hi.ConnectionState.dKey.DecryptDanger(nil, p.Data[:header.Len], p.Data[header.Len:], h.MessageCounter, make([]byte, 12))
+	if err != nil {
+		return nil
+	}
+	msg := &NebulaControl{}
+	if msg.Unmarshal(plain) != nil || (msg.Type != NebulaControl_CreateRelayRequest && msg.Type != NebulaControl_CreateRelayResponse) {
+		return nil
+	}
+	c := &c39Ctl{sender: w.peerName(hi), resp: msg.Type == NebulaControl_CreateRelayResponse, init: msg.InitiatorRelayIndex, ridx: msg.ResponderRelayIndex}
+	u32 := func(x uint32) netip.Addr {
+		var b [4]byte
+		binary.BigEndian.PutUint32(b[:], x)
+		return netip.AddrFrom4(b)
+	}
+	switch {
+	case msg.OldRelayFromAddr > 0 || msg.OldRelayToAddr > 0:
+		c.from, c.to = u32(msg.OldRelayFromAddr), u32(msg.OldRelayToAddr)
+	case msg.RelayFromAddr != nil && msg.RelayToAddr != nil:
+		c.from, c.to = protoAddrToNetAddr(msg.RelayFromAddr), protoAddrToNetAddr(msg.RelayToAddr)
+	}
+	w.st.ctlDecoded++
+	return c
+}
+
+// slotsOn: every relay slot of one node, keyed like allSlots.
+func (w *c39World) slotsOn(n *vnode) map[c39SlotID]Relay {
+	out := map[c39SlotID]Relay{}
+	for _, s := range w.slots(n) {
+		out[c39SlotID{n.spec.Name, s.hi, s.r.LocalIndex}] = s.r
+	}
+	return out
+}
+
+// c39Confirms: does this control message, sent by the slot's owner, name the slot? Weak reading of "the owner confirmed":
+// its CreateRelayResponse echoing the slot's index, or a CreateRelayRequest of its own that names the slot's pair - as the
+// requester (relayFrom = itself, relayTo = the slot's peer: a simultaneous open) or in the form the relay passes a request
+// on (relayFrom = the slot's peer, relayTo = the receiving node). The second form reaches a FORWARDING slot only when the
+// owner crafts it (the terminal branch of the request handler does not look at the slot's type); the owner then announced
+// an index of its own for that very pair, which is its own doing and is taken as its answer.
+func c39Confirms(n *vnode, owner netip.Addr, sl Relay, c *c39Ctl) bool {
+	if c.resp {
+		return c.init == sl.LocalIndex
+	}
+	return (c.from == sl.PeerAddr && n.f.myVpnAddrsTable.Contains(c.to)) || (c.from == owner && c.to == sl.PeerAddr)
+}
+
+const c39EpochSig = "a Requested relay slot became Established on a control message that is not its owner's confirmation of that slot (the leg was re-established by the other side of the pair)"
+
+// judgeCtl judges ONE delivered control message against the slots of the node that received it: a slot that was Requested
+// when the message arrived (whatever index it still carries from an earlier epoch) may be Established afterwards only if
+// this very message comes from the peer that owns the slot and names the slot.
+func (w *c39World) judgeCtl(dst *vnode, c *c39Ctl, pre map[c39SlotID]Relay) {
+	post := w.slotsOn(dst)
+	name := dst.spec.Name
+	for id, b := range pre {
+		a, ok := post[id]
+		if !ok || b.State != Requested || a.State != Established {
+			continue
+		}
+		owner := w.peerName(id.hi)
+		if c.sender == owner && c39Confirms(dst, w.addr[owner], b, c) {
+			w.st.estByOwnerMsg++
+			continue
+		}
+		w.violation(c39EpochSig, map[string]any{"node": name, "owner": owner, "before": vRelayStr(&b), "after": vRelayStr(&a), "message": c.String(), "event": w.curEv})
+	}
+	// observation (not judged, see the Assume line): who completes a PeerRequested slot
+	for id, b := range pre {
+		if a, ok := post[id]; ok && b.State == PeerRequested && a.State == Established {
+			if c.sender == w.who[b.PeerAddr] {
+				w.st.peerReqByTarget++
+			} else {
+				w.st.peerReqByOther++
+			}
+		}
+	}
+	if name == "r" && c.resp && w.who[c.to] != c.sender {
+		for id, b := range pre {
+			if b.State == PeerRequested && b.PeerAddr == c.to && w.peerName(id.hi) != c.sender {
+				w.st.respForOtherPair++
+			}
+		}
+	}
+	// vacuity: one side of a pair answers the relay while the relay's slot for the other side awaits that side's own answer
+	if name == "r" && c.resp {
+		for id, s1 := range pre {
+			if w.peerName(id.hi) != c.sender || s1.LocalIndex != c.init || s1.Type != ForwardingType {
+				continue
+			}
+			for id2, s2 := range pre {
+				if s2.Type != ForwardingType || s2.State != Requested || s2.PeerAddr != w.addr[c.sender] || len(id2.hi.vpnAddrs) == 0 || id2.hi.vpnAddrs[0] != s1.PeerAddr {
+					continue
+				}
+				w.st.otherSideAnswered++
+				if s2.RemoteIndex != 0 {
+					w.st.otherSideAnsweredReReq++
+				}
+				if a, ok := post[id2]; ok && a.State == Requested {
+					w.st.legKeptWaiting++
+				}
+			}
+		}
 	}
 }
 
@@ -580,6 +737,7 @@ func (w *c39World) payload() []byte {
 // apply executes one event; dirty=true means the world must not be reused for a sibling event even if its key is unchanged.
 func (w *c39World) apply(e c39Ev) (dirty bool) {
 	w.hist = append(w.hist, e.String())
+	w.curEv = e.String()
 	w.evEmitted, w.evDelivered, w.evEmitSeq, w.evDelivSeq = nil, nil, nil, nil
 	before := w.allSlots()
 	keyBefore := ""
@@ -1185,6 +1343,25 @@ func (w *c39World) audit(e c39Ev, before map[c39SlotID]Relay) {
 			w.st.fwdByData++
 		} else {
 			w.st.dataRefused++
+			// vacuity: the refused frame arrived on a live slot of the sender whose ONWARD slot had been Established in an earlier
+			// epoch, was asked again by the relay and still awaits its owner's answer (it keeps the earlier epoch's index)
+			for _, d := range w.evDelivered {
+				var ih header.H
+				if d.To != w.nodes["r"].udp || ih.Parse(d.Data) != nil {
+					continue
+				}
+				for id, s1 := range before {
+					if id.node != "r" || s1.LocalIndex != ih.RemoteIndex || s1.Type != ForwardingType || w.peerName(id.hi) != e.S {
+						continue
+					}
+					for id2, s2 := range before {
+						if id2.node == "r" && s2.Type == ForwardingType && s2.State == Requested && s2.RemoteIndex != 0 && s2.PeerAddr == w.addr[e.S] &&
+							len(id2.hi.vpnAddrs) > 0 && id2.hi.vpnAddrs[0] == s1.PeerAddr {
+							w.st.pendingLegData++
+						}
+					}
+				}
+			}
 		}
 	}
 }
@@ -1193,6 +1370,8 @@ func (w *c39World) audit(e c39Ev, before map[c39SlotID]Relay) {
 
 func c39Search(t *testing.T, c *mc.Check, st *c39Stats, cfg c39Cfg, roots [][]c39Ev, maxDepth int, deadline time.Time) (states int64, depthDone int, exhaustive bool) {
 	stop := func() bool { return time.Now().After(deadline) || c.OutOfTime() || st.otherViolations > 40 }
+	t0 := time.Now()
+	st.d1Seconds = 0
 	build := func(hist []c39Ev) *c39World {
 		w := c39New(t, c, st, cfg)
 		for _, e := range hist {
@@ -1272,6 +1451,9 @@ func c39Search(t *testing.T, c *mc.Check, st *c39Stats, cfg c39Cfg, roots [][]c3
 			w.net.close()
 		}
 		depthDone = depth + 1
+		if depth == 0 {
+			st.d1Seconds = time.Since(t0).Seconds()
+		}
 		frontier = next
 	}
 	return states, depthDone, exhaustive
@@ -1299,34 +1481,46 @@ func TestVerifC39(t *testing.T) {
 
 	hIT, hOT := c39Ev{K: "honest", S: "i", To: "t"}, c39Ev{K: "honest", S: "o", To: "t"}
 	half := c39Ev{K: "req", S: "i", From: "i", To: "t", Loss: true}
+	// an established pair, then ONE side asks the relay for the same relay again (a peer that lost its state, or restarted
+	// its handshake): the relay puts its slot for the other side back to Requested, that slot keeps the index it learned in
+	// the earlier epoch, and the relay's question to the other side is lost. Everything that can reach the relay while it
+	// waits for that answer (retransmits and repeated answers from the first side included) is one event away.
+	reAskT := c39Ev{K: "req", S: "t", From: "t", To: "i", Loss: true}
+	reAskI := c39Ev{K: "req", S: "i", From: "i", To: "t", Loss: true}
 	anchors := [][]c39Ev{
 		nil,
 		{hIT},
+		{hIT, reAskT},
 		{half},
 		{hIT, {K: "close", S: "t"}, {K: "rehs", S: "t"}},
 		// a leg with two tunnels: the older one lingers and owns the relay slots (on R: forwarding slots, on the endpoint:
 		// terminal slots); every teardown of either tunnel, on either side, is one event away
 		{hIT, {K: "rehs", S: "i"}},
 		{hIT, {K: "rehs", S: "t"}},
+		// the initiator holds an established pair and a half-open one (the relay's question to the second target is lost): every
+		// answer that names the half-open pair, from every peer on every slot, is one event away
+		{hIT, {K: "req", S: "i", From: "i", To: "o", Loss: true}},
 		{hIT, hOT},
 		{hIT, {K: "rehs", S: "i"}, {K: "tickR"}}, // ... and the connection manager has looked at both once (deletion is one tick away)
 		{hIT, {K: "silentR", S: "i"}, {K: "rehs", S: "i"}},
 		{hIT, {K: "rehs", S: "i"}, {K: "honest", S: "t", To: "i"}, {K: "tickAll"}}, // two tunnels, traffic, every node's connection manager ran
+		{hIT, reAskI},                     // the mirror image: the leg towards the target awaits the target's answer
+		{hIT, {K: "rehs", S: "i"}, reAskT}, // the re-asked slot sits on a lingering tunnel
 	}
 	type job struct {
 		cfg   c39Cfg
 		share float64
 		roots [][]c39Ev
 	}
-	nA := mc.Pick(c, 6, len(anchors))
+	nA := mc.Pick(c, 8, len(anchors))
 	// the routed configurations come second: their share of the budget must not depend on how far the big job got
 	jobs := []job{{c39Cfg{true, cert.Version2, ""}, 0.50, anchors[:nA]}, {c39Cfg{true, cert.Version2, "o"}, 0.16, anchors[:2]},
 		{c39Cfg{false, cert.Version2, ""}, 0.10, anchors[:2]}, {c39Cfg{true, cert.Version1, ""}, 0.16, anchors[:2]},
 		{c39Cfg{false, cert.Version1, ""}, 0.08, anchors[:1]}}
 	if c.Thorough() {
-		v1roots := [][]c39Ev{anchors[0], anchors[1], anchors[4]} // v1 certificates: the two-tunnel leg as well
+		v1roots := [][]c39Ev{anchors[0], anchors[1], anchors[2], anchors[5]} // v1 certificates: the re-asked leg and the two-tunnel leg as well
 		jobs = []job{{c39Cfg{true, cert.Version2, ""}, 0.50, anchors[:nA]},
-			{c39Cfg{true, cert.Version2, "o"}, 0.14, [][]c39Ev{anchors[0], anchors[1], anchors[2], anchors[4], anchors[6]}},
+			{c39Cfg{true, cert.Version2, "o"}, 0.14, [][]c39Ev{anchors[0], anchors[1], anchors[3], anchors[5], anchors[8]}},
 			{c39Cfg{true, cert.Version2, "t"}, 0.05, anchors[:2]}, {c39Cfg{true, cert.Version2, "i"}, 0.05, anchors[:2]},
 			{c39Cfg{true, cert.Version1, "o"}, 0.05, anchors[:2]},
 			{c39Cfg{false, cert.Version2, ""}, 0.08, anchors[:2]}, {c39Cfg{true, cert.Version1, ""}, 0.09, v1roots},
@@ -1342,13 +1536,18 @@ func TestVerifC39(t *testing.T) {
 	perCfg := map[string]any{}
 	start := time.Now()
 	used := 0.0
-	for _, j := range jobs {
+	mainDepth := 0
+	for ji, j := range jobs {
 		used += j.share
 		deadline := start.Add(time.Duration(used * budget * float64(time.Second)))
 		f0 := st.forwards
 		n, d, ex := c39Search(t, c, st, j.cfg, j.roots, depth, deadline)
+		if ji == 0 {
+			mainDepth = d
+		}
 		total += n
-		perCfg[j.cfg.String()] = map[string]any{"states": n, "depth_completed": d, "closed": ex, "forwards": st.forwards - f0, "anchors": len(j.roots)}
+		perCfg[j.cfg.String()] = map[string]any{"states": n, "depth_completed": d, "closed": ex, "forwards": st.forwards - f0, "anchors": len(j.roots),
+			"wall_seconds_until_depth_1_was_complete_(sizing_aid_not_an_oracle)": float64(int(st.d1Seconds*10)) / 10}
 		if j.cfg.amRelay {
 			fwdRelay += st.forwards - f0
 		} else {
@@ -1372,6 +1571,15 @@ func TestVerifC39(t *testing.T) {
 		"crafted_requests_with_a_relayfrom_the_sender_routes_but_does_not_own": st.reqCovered, "of_these_without_effect_on_any_node": st.reqCoveredRefused,
 		"of_these_with_effect_(the_relay_itself_is_the_named_target)": st.reqCoveredEffect, "crafted_responses_with_such_a_relayfrom": st.respCovered,
 		"honest_packets_delivered_from_or_to_the_routed_peer": st.routedHonest})
+	c.Set("control_messages_judged_one_by_one", map[string]any{"decoded_with_the_receivers_tunnel_key": st.ctlDecoded,
+		"requested_to_established_steps_caused_by_the_owners_confirmation": st.estByOwnerMsg,
+		"answers_from_one_side_of_a_pair_while_the_relays_slot_for_the_other_side_awaited_its_own_answer": st.otherSideAnswered,
+		"of_these_with_a_waiting_slot_that_was_established_in_an_earlier_epoch_(index_retained)": st.otherSideAnsweredReReq,
+		"of_these_after_which_the_slot_was_still_waiting": st.legKeptWaiting,
+		"data_frames_refused_because_the_onward_slot_was_re-asked_and_still_waiting": st.pendingLegData,
+		"peer_requested_slots_completed_by_a_message_from_the_slots_peer_(the_target_of_the_pair)": st.peerReqByTarget,
+		"peer_requested_slots_completed_by_a_message_from_anybody_else_(observed_not_judged)": st.peerReqByOther,
+		"crafted_responses_naming_as_relayto_a_pair_the_sender_is_no_part_of_while_that_pairs_slot_on_the_initiators_tunnel_was_peer_requested": st.respForOtherPair})
 	c.Set("events_without_effect_on_state", st.noops)
 	c.Set("forwarded_datagrams_judged", st.forwards)
 	c.Set("data_events_forwarded", st.fwdByData)
@@ -1384,11 +1592,12 @@ func TestVerifC39(t *testing.T) {
 	c.Set("slot_states_observed", map[string]int64{"Requested": st.stateSeen[0], "PeerRequested": st.stateSeen[1], "Established": st.stateSeen[2], "Disestablished": st.stateSeen[3]})
 	c.Set("explanation", "states = distinct canonical network states (all four nodes' tunnels, relay slots with renamed indexes, hostMap.Relays, pending handshakes, R's liveness flags) summed over the four configurations; transitions = events executed on real nodes; an event that leaves the canonical state unchanged (a refusal) lets the same world serve the next sibling event, every other event is followed by a fresh replay of the history")
 	c.Assume("am_relay is fixed per history (forwarding does not re-check it; the quantifier does not ask for reloads)")
-	c.Assume("valid transitions (weak reading): creation as Requested/PeerRequested (forwarding) or Requested/Established (terminal); Requested|PeerRequested->Established; any->Disestablished; Disestablished->Requested|Established; Established|PeerRequested->Requested when the relay (re-)asks the peer; nothing moves into PeerRequested; Requested->Established needs a message from the slot's owner")
+	c.Assume("valid transitions (weak reading): creation as Requested/PeerRequested (forwarding) or Requested/Established (terminal); Requested|PeerRequested->Established; any->Disestablished; Disestablished->Requested|Established; Established|PeerRequested->Requested when the relay (re-)asks the peer; nothing moves into PeerRequested; Requested->Established needs a message from the slot's owner, and (judged message by message, so whatever happened since the slot last became Requested) the message that causes the step must be the owner's confirmation of that slot: its CreateRelayResponse echoing the slot's index or a CreateRelayRequest of its own naming the slot's pair (weak reading: a real simultaneous open may complete on the owner's request, and an owner that crafts the passed-on form of a request for its own slot has answered); an index the slot keeps from an earlier epoch confirms nothing")
 	c.Assume("'the pair that negotiated the slot' is judged at the destination: the index a forwarded datagram leaves on must be one the destination itself holds for the TRUE sender (or, for indexes only announced in crafted messages, one it announced on its current tunnel)")
 	c.Assume("an endpoint that forgets a tunnel with the relay without telling it (silent-2nd) cannot make the relay violate the property: a forward onto an index the destination listed earlier for the true sender is judged by the relay's own records of the onward leg")
 	c.Assume("the state of the incoming leg is not judged (the statement names the onward leg); a sender using a slot before answering is taken as consent")
 	c.Assume("a certificate's unsafe (routed) networks do not make their addresses the holder's own: a peer 'is' its certificate's overlay addresses only; the routed network of the routed configurations lies inside the overlay network (the statement does not restrict where routed networks lie)")
+	c.Assume("who may complete a PeerRequested slot is not judged (the statement names the onward leg and the pair, PeerRequested->Established is a valid transition): a CreateRelayResponse by which a peer answers for its own slot but names another pair's target as RelayTo moves that pair's PeerRequested slot on the initiator's tunnel to Established (counted in the evidence); every forward in the states so reached is judged as everywhere else")
 	c.Assume("virtual time and timer-wheel positions are not part of the canonical state; counters, keys and raw index values are abstracted")
 	c.Set("transitions_judged_exactly_single_message_events", st.exactTransitions)
 	c.Set("forwards_through_the_relayfrom_defect", st.spoofFinding)
@@ -1403,6 +1612,12 @@ func TestVerifC39(t *testing.T) {
 		c.Require(st.routedWorlds > 0 && st.reqCovered > 0 && st.reqCoveredRefused > 0 && st.respCovered > 0 && st.routedHonest > 0,
 			"routed configurations not exercised: worlds %d, covered requests %d (refused %d), covered responses %d, honest packets of the routed peer %d",
 			st.routedWorlds, st.reqCovered, st.reqCoveredRefused, st.respCovered, st.routedHonest)
+		c.Require(st.ctlDecoded > 0 && st.estByOwnerMsg > 0, "control messages were not judged one by one: decoded %d, Requested->Established steps by the owner's confirmation %d", st.ctlDecoded, st.estByOwnerMsg)
+		c.Require(st.otherSideAnsweredReReq > 0 && st.legKeptWaiting > 0 && st.pendingLegData > 0,
+			"a re-asked relay leg awaiting its owner's answer was not exercised: answers from the other side %d (re-asked leg %d, still waiting afterwards %d), data refused on it %d",
+			st.otherSideAnswered, st.otherSideAnsweredReReq, st.legKeptWaiting, st.pendingLegData)
+		// the half-open second pair is the last anchor of the main job: demanded only when that job completed depth 1
+		c.Require(st.peerReqByTarget > 0 && (st.respForOtherPair > 0 || mainDepth < 1), "PeerRequested slots: completed by the pair's target %d, answers naming a half-open pair the sender is no part of %d", st.peerReqByTarget, st.respForOtherPair)
 		c.Require(st.stateSeen[0] > 0 && st.stateSeen[1] > 0 && st.stateSeen[2] > 0 && st.stateSeen[3] > 0, "slot states not all reached: %v", st.stateSeen)
 		c.Require(len(st.trans) >= 4, "too few distinct state transitions observed: %v", st.trans)
 	}
